@@ -21,6 +21,8 @@ type PPO struct {
 	// Discharged is set when a machine-checked side condition removes the obligation; Why says which.
 	Discharged bool
 	Why        string
+	// LiftParam: the operand is this parameter of Fn — the obligation belongs to the callers.
+	LiftParam *ssa.Parameter
 }
 
 // reflectPanicky: reflect methods documented to panic on the wrong kind / unsettable / out of range,
@@ -39,6 +41,8 @@ var reflectPanicky = map[string][]string{
 	"(reflect.Value).Uint":      {"Uint", "Uint8", "Uint16", "Uint32", "Uint64", "Uintptr"},
 	"(reflect.Value).Float":     {"Float32", "Float64"},
 	"(reflect.Value).Bool":      {"Bool"},
+	"(reflect.Value).SetUint":   {"Uint", "Uint8", "Uint16", "Uint32", "Uint64", "Uintptr"},
+	"(reflect.Value).SetInt":    {"Int", "Int8", "Int16", "Int32", "Int64"},
 	"(reflect.Value).Interface": nil,
 	"(reflect.Value).Type":      nil,
 	"(reflect.Value).IsZero":    nil,
@@ -246,18 +250,51 @@ func Census(fns []*ssa.Function, kinds map[string]bool) []PPO {
 func panicDesc(v ssa.Value, tr *Tracer) string {
 	v = Unconv(v)
 	if c, ok := v.(*ssa.Const); ok && c.Value != nil {
-		s := c.Value.ExactString()
-		if len(s) > 40 {
-			s = s[:40] + "…"
+		s := strings.Trim(c.Value.ExactString(), "\"")
+		var b strings.Builder
+		for _, r := range s {
+			switch {
+			case r >= 'a' && r <= 'z' || r >= 'A' && r <= 'Z' || r >= '0' && r <= '9':
+				b.WriteRune(r)
+			case b.Len() > 0 && !strings.HasSuffix(b.String(), "_"):
+				b.WriteByte('_')
+			}
+			if b.Len() >= 28 {
+				break
+			}
 		}
-		return s
+		return "\"" + strings.Trim(b.String(), "_") + "\""
+	}
+	// a computed message / an error value: describe by its first constant string part or its root
+	for _, o := range tr.Origins(v) {
+		if i := strings.Index(o, "const:\""); i >= 0 {
+			rest := o[i+7:]
+			if j := strings.Index(rest, "\""); j > 0 {
+				words := strings.Fields(rest[:j])
+				if len(words) > 3 {
+					words = words[:3]
+				}
+				clean := strings.Map(func(r rune) rune {
+					if r >= 'a' && r <= 'z' || r >= 'A' && r <= 'Z' || r >= '0' && r <= '9' || r == '_' {
+						return r
+					}
+					return -1
+				}, strings.Join(words, "_"))
+				if clean != "" {
+					return "msg:" + clean
+				}
+			}
+		}
 	}
 	o := tr.OriginString(v)
 	o = strings.ReplaceAll(o, "github.com/xelaj/mtproto/", "")
-	if len(o) > 60 {
-		o = o[:60] + "…"
+	if i := strings.IndexAny(o, " |"); i > 0 {
+		o = o[:i]
 	}
-	return o
+	if len(o) > 48 {
+		o = o[:48]
+	}
+	return "value:" + o
 }
 
 func sliceNeedsCheck(x *ssa.Slice) bool {
@@ -395,13 +432,20 @@ func AutoDischarge(p *PPO) {
 	f := p.Fn
 	switch p.Kind {
 	case "make":
-		if NonNeg(p.Operand, 0) {
-			p.Discharged, p.Why = true, "size is non-negative by construction (len/unsigned/constant arithmetic)"
+		if prm, ok := stripConv(p.Operand).(*ssa.Parameter); ok {
+			p.LiftParam = prm
+		}
+		nonNeg := NonNeg(p.Operand, 0) || DominatingGuard(f, p.Instr, func(cd *Cond) int { return ordEdge(cd, p.Operand, ">=", 0) })
+		if !nonNeg {
 			return
 		}
-		// guarded: size >= 0 / size > k
-		if DominatingGuard(f, p.Instr, func(cd *Cond) int { return ordEdge(cd, p.Operand, ">=", 0) }) {
-			p.Discharged, p.Why = true, "dominated by a size >= 0 test"
+		if !WireSized(p.Operand) {
+			p.Discharged, p.Why = true, "size is non-negative and derives from lengths / constants / at most three wire bytes"
+			return
+		}
+		if DominatingGuard(f, p.Instr, func(cd *Cond) int { return remainingBoundEdge(cd, p.Operand) }) {
+			p.Discharged, p.Why = true, "size is non-negative and dominated by a comparison with the number of unread bytes"
+			p.LiftParam = nil
 		}
 	case "index":
 		idx := p.Operand
@@ -434,13 +478,35 @@ func AutoDischarge(p *PPO) {
 	case "reflect":
 		call := p.Instr.(ssa.CallInstruction)
 		name := CalleeName(call.Common())
+		if name == "reflect.MakeSlice" && len(call.Common().Args) == 3 {
+			n := call.Common().Args[1]
+			nonNeg := NonNeg(n, 0) || DominatingGuard(f, p.Instr, func(cd *Cond) int { return ordEdge(cd, n, ">=", 0) })
+			if nonNeg && (!WireSized(n) || DominatingGuard(f, p.Instr, func(cd *Cond) int { return remainingBoundEdge(cd, n) })) {
+				p.Discharged, p.Why = true, "vector length is non-negative and bounded by the number of unread bytes"
+			}
+			return
+		}
 		kinds := reflectPanicky[name]
+		if name == "(reflect.Value).Elem" {
+			// reflect.New always returns a pointer
+			if c, ok := p.Operand.(*ssa.Call); ok && CalleeName(c.Common()) == "reflect.New" {
+				p.Discharged, p.Why = true, "receiver is the result of reflect.New (always a pointer)"
+				return
+			}
+		}
 		if len(kinds) == 0 {
 			return
 		}
 		recv := p.Operand
 		if DominatingGuard(f, p.Instr, func(cd *Cond) int { return kindEdge(cd, recv, kinds) }) {
 			p.Discharged, p.Why = true, "dominated by a Kind() test for " + strings.Join(kinds, "/")
+		}
+	case "slice":
+		sl := p.Instr.(*ssa.Slice)
+		if sl.High == nil && sl.Max == nil && sl.Low != nil {
+			if k, ok := ConstInt(sl.Low); ok && k > 0 && DominatingGuard(f, p.Instr, func(cd *Cond) int { return lenGtEdge(cd, sl.X, k-1) }) {
+				p.Discharged, p.Why = true, "constant low bound dominated by a len(base) test"
+			}
 		}
 	case "div":
 		if k, ok := ConstInt(p.Operand); ok && k != 0 {
@@ -530,10 +596,56 @@ func sameStorage(a, b ssa.Value) bool {
 	// loads of the same local variable / same value through phi-free copies
 	la, ok1 := a.(*ssa.UnOp)
 	lb, ok2 := b.(*ssa.UnOp)
-	if ok1 && ok2 && la.Op == token.MUL && lb.Op == token.MUL && la.X == lb.X {
-		return true
+	if ok1 && ok2 && la.Op == token.MUL && lb.Op == token.MUL {
+		if la.X == lb.X {
+			return true
+		}
+		// two loads of the same field of the same object, with no store to that field in the function
+		fa, ok1 := la.X.(*ssa.FieldAddr)
+		fb, ok2 := lb.X.(*ssa.FieldAddr)
+		if ok1 && ok2 && fa.X == fb.X && fa.Field == fb.Field && !fieldStoredBefore(fa, la, lb) {
+			return true
+		}
 	}
 	return false
+}
+
+// fieldStoredBefore: some store to the same field of the same base may execute before one of the two loads
+// (stores that both loads dominate come later and cannot separate them).
+func fieldStoredBefore(fa *ssa.FieldAddr, la, lb *ssa.UnOp) bool {
+	f := fa.Parent()
+	for _, b := range f.Blocks {
+		for _, in := range b.Instrs {
+			st, ok := in.(*ssa.Store)
+			if !ok {
+				continue
+			}
+			x, ok := st.Addr.(*ssa.FieldAddr)
+			if !ok || x.X != fa.X || x.Field != fa.Field {
+				continue
+			}
+			if !(instrBefore(la, st) && instrBefore(lb, st)) {
+				return true
+			}
+		}
+	}
+	return false
+}
+
+func instrBefore(a, b ssa.Instruction) bool {
+	ba, bb := a.Block(), b.Block()
+	if ba == bb {
+		for _, in := range ba.Instrs {
+			if in == a {
+				return true
+			}
+			if in == b {
+				return false
+			}
+		}
+		return false
+	}
+	return ba.Dominates(bb) && !reaches(bb, ba, map[*ssa.BasicBlock]bool{})
 }
 
 // lenGtEdge: successor on which len(base) > k holds.
@@ -621,7 +733,18 @@ func sameReflectValue(a, b ssa.Value) bool {
 	if a == b {
 		return true
 	}
-	return sameStorage(a, b)
+	if sameStorage(a, b) {
+		return true
+	}
+	// v.Kind() guards v.Type().Elem(): the Type of a Value has the Value's kind
+	for _, pair := range [][2]ssa.Value{{a, b}, {b, a}} {
+		if c, ok := pair[0].(*ssa.Call); ok && CalleeName(c.Common()) == "(reflect.Value).Type" && len(c.Call.Args) == 1 {
+			if c.Call.Args[0] == pair[1] || sameStorage(c.Call.Args[0], pair[1]) {
+				return true
+			}
+		}
+	}
+	return false
 }
 
 func reflectKindName(k int64) string {
@@ -631,4 +754,114 @@ func reflectKindName(k int64) string {
 		return names[k]
 	}
 	return "?"
+}
+
+// WireSized: the value can exceed what three wire bytes encode: it derives from a 32/64-bit read of the input
+// (Pop*/binary.Uint32/Uint64 results, or a parameter) rather than from len(), constants or single bytes.
+func WireSized(v ssa.Value) bool { return wireSized(v, true) }
+
+// WireSizedLocal is WireSized without counting parameters (whose provenance belongs to the callers).
+func WireSizedLocal(v ssa.Value) bool { return wireSized(v, false) }
+
+func wireSized(v ssa.Value, params bool) bool {
+	seen := map[ssa.Value]bool{}
+	var walk func(v ssa.Value, depth int) bool
+	walk = func(v ssa.Value, depth int) bool {
+		if depth > 12 || seen[v] {
+			return false
+		}
+		seen[v] = true
+		switch x := v.(type) {
+		case *ssa.Const:
+			return false
+		case *ssa.Parameter:
+			return params
+		case *ssa.Convert:
+			return walk(x.X, depth+1)
+		case *ssa.ChangeType:
+			return walk(x.X, depth+1)
+		case *ssa.BinOp:
+			return walk(x.X, depth+1) || walk(x.Y, depth+1)
+		case *ssa.Phi:
+			for _, e := range x.Edges {
+				if walk(e, depth+1) {
+					return true
+				}
+			}
+			return false
+		case *ssa.UnOp:
+			if x.Op == token.MUL {
+				if b, ok := x.Type().Underlying().(*types.Basic); ok && (b.Kind() == types.Uint8 || b.Kind() == types.Int8) {
+					return false
+				}
+				return true
+			}
+			return walk(x.X, depth+1)
+		case *ssa.Call:
+			n := CalleeName(x.Common())
+			switch {
+			case n == "builtin:len" || n == "builtin:cap", strings.HasSuffix(n, ".NumField"), strings.HasSuffix(n, "reflect.Value).Len"):
+				return false
+			case strings.HasSuffix(n, "littleEndian).Uint32"), strings.HasSuffix(n, "bigEndian).Uint32"):
+				// 3 bytes read + one zero byte (PopMessage) is at most 2^24-1; a full 4-byte read is wire sized
+				if len(x.Call.Args) == 2 {
+					if app, ok := x.Call.Args[1].(*ssa.Call); ok && CalleeName(app.Common()) == "builtin:append" {
+						return false
+					}
+				}
+				return true
+			}
+			return true
+		case *ssa.Extract:
+			return true
+		}
+		return true
+	}
+	return walk(v, 0)
+}
+
+// remainingBoundEdge: successor on which v <= f(unread bytes) holds, for a condition comparing v (or a widening
+// of it) with an expression built from (*bytes.Reader).Len / (*bytes.Buffer).Len.
+func remainingBoundEdge(cd *Cond, v ssa.Value) int {
+	if cd.Kind != "ord" {
+		return -1
+	}
+	fromRemaining := func(x ssa.Value) bool {
+		ok := false
+		var walk func(x ssa.Value, d int)
+		walk = func(x ssa.Value, d int) {
+			if d > 8 {
+				return
+			}
+			switch y := x.(type) {
+			case *ssa.Call:
+				n := CalleeName(y.Common())
+				if n == "(*bytes.Reader).Len" || n == "(*bytes.Buffer).Len" {
+					ok = true
+				}
+			case *ssa.Convert:
+				walk(y.X, d+1)
+			case *ssa.BinOp:
+				walk(y.X, d+1)
+				walk(y.Y, d+1)
+			}
+		}
+		walk(x, 0)
+		return ok
+	}
+	x, y, r := cd.X, cd.Y, cd.Rel
+	switch {
+	case stripConv(x) == stripConv(v) && fromRemaining(y):
+	case stripConv(y) == stripConv(v) && fromRemaining(x):
+		r = map[string]string{"<": ">", "<=": ">=", ">": "<", ">=": "<="}[r]
+	default:
+		return -1
+	}
+	switch r {
+	case ">", ">=":
+		return 1 // v > remaining is the refusing branch; the bound holds on the other edge
+	case "<", "<=":
+		return 0
+	}
+	return -1
 }
